@@ -19,7 +19,8 @@ REQUIRED = [
     "tree_inv_load", "tree_inv_replace", "zeroTo_clock_of_contiguous", "first_write_rollback_defect_before_fix",
     "fact_page_size", "fact_iblt_buckets", "fact_shelves", "fact_load_empty_resets", "fact_rollback_reload_context",
     "fact_add_tx_options", "fact_comparisons", "fact_call_structure", "fact_wiring", "fact_check_page_conditions",
-    "fact_diagnostics", "diagnostics_spec", "save_failure_is_rolled_back",
+    "fact_diagnostics", "diagnostics_spec", "save_failure_is_rolled_back", "fact_add_critical_section",
+    "rollback_reload_race_defect_before_fix",
 ]
 
 
@@ -117,7 +118,9 @@ def run(ctx):
     ]
     ctx.assumptions += [
         "all clocks < 2^31 (uint32 treeSize doubling wraps at 2^32: reRoot_overflow_witness); a valid DAG needs 2^31 chained transactions to get there",
-        "concurrent Add calls are serialised by the bbolt write lock (stoabs.WithWriteLock); the harness records the commit order of concurrent adds",
+        "concurrent Add calls are serialised: write transaction + rollback handler are one critical section (state.addMutex, pinned by "
+        "fact_add_critical_section) and the write transactions hold the bbolt write lock; the harness records the commit order of concurrent adds "
+        "and forces the schedule 'next Add starts between rollback and reload' (race op)",
         "a transaction ref identifies the transaction; DropLeaves (no caller in the node) is not modelled",
     ]
     tot = {"lines": 0, "bad": 0}
